@@ -361,6 +361,13 @@ func (b *Builder) Root(v ssa.Value) ssa.Value {
 			} else {
 				return v
 			}
+		case *ssa.Phi:
+			// a variable that only ever holds views of one object (dst = dst[5:])
+			r := b.phiRoot(x, map[*ssa.Phi]bool{})
+			if r == nil {
+				return v
+			}
+			return r
 		case *ssa.UnOp:
 			// load of a pointer/interface/slice held in a local cell with a single store: look through
 			if x.Op == token.MUL {
@@ -377,6 +384,47 @@ func (b *Builder) Root(v ssa.Value) ssa.Value {
 		}
 	}
 	return v
+}
+
+// phiRoot returns the common root of all incoming values of a phi (ignoring cycles), or nil.
+func (b *Builder) phiRoot(p *ssa.Phi, seen map[*ssa.Phi]bool) ssa.Value {
+	if seen[p] {
+		return nil
+	}
+	seen[p] = true
+	var root ssa.Value
+	for _, e := range p.Edges {
+		var r ssa.Value
+		// peel views manually so that cycles through this phi are detected
+		cur := e
+		for {
+			switch y := cur.(type) {
+			case *ssa.Slice:
+				cur = y.X
+				continue
+			case *ssa.ChangeType:
+				cur = y.X
+				continue
+			}
+			break
+		}
+		if q, ok := cur.(*ssa.Phi); ok {
+			if seen[q] {
+				continue
+			}
+			r = b.phiRoot(q, seen)
+			if r == nil {
+				return nil
+			}
+		} else {
+			r = b.Root(cur)
+		}
+		if root != nil && r != root {
+			return nil
+		}
+		root = r
+	}
+	return root
 }
 
 // singleStore returns the only store to a local cell that is otherwise only loaded.
